@@ -52,6 +52,14 @@ def step (_ : Unit) (fields : List String) (impl : String) : Unit × Reply :=
                 decide (p ≤ ticks + 1) && decide (ticks ≤ p + 2 + ticks / 3)
       ((), ⟨"accepted-by-model=" ++ boolStr ok, ok, true, ok, "-"⟩)
     | _, _ => ((), .bad)
+  | ["hookfail", i] =>
+    -- Resume fails in the application's post-resume hook: the error is returned and no keepalive is left running
+    match i.toNat? with
+    | some i =>
+      let m := kvs impl
+      let ok := i > 0 && (m.lookup "resumeerr") == some "true" && nat m "orphanpings" == 0 && (m.lookup "orphanpings").isSome
+      ((), ⟨"accepted-by-model=" ++ boolStr ok, ok, true, ok, "-"⟩)
+    | none => ((), .bad)
   | ["xclose", i, a] =>
     match i.toNat?, a.toNat? with
     | some i, some _ =>
